@@ -26,7 +26,7 @@ def main(tag, skip_confirm=False):
     if not skip_confirm:
         wt = '/tmp/wt-eval-%s' % tag
         sh('git -C /repo worktree remove --force %s; rm -rf %s' % (wt, wt))
-        rc, out = sh('/root/mkwt.sh eval-%s' % tag)
+        rc, out = sh('/verif/tools/mkwt.sh eval-%s' % tag)
         assert rc == 0, out
         try:
             rc, out = sh('git apply %s/demo.diff || git apply --3way %s/demo.diff' % (src, src), cwd=wt)
@@ -45,7 +45,7 @@ def main(tag, skip_confirm=False):
             confirmed = base_pass and only_demo_fails and passed_n >= 115
             ran.append('existing tests with the patch: %d passed; failing tests: %s' % (passed_n, failed))
         finally:
-            sh('rm -rf %s/target; git -C /repo worktree remove --force %s; /root/cleantmp.sh' % (wt, wt))
+            sh('rm -rf %s/target; git -C /repo worktree remove --force %s; /verif/tools/cleantmp.sh' % (wt, wt))
     # 2. run checks against the patched /repo
     rc, out = sh('git -C /repo status --porcelain')
     assert out.strip() == '', '/repo is dirty: ' + out
